@@ -26,10 +26,23 @@ impl ConfigFile {
 
         manifest_dir_path.pop();
 
-        let Some((before, i18n_cfg)) = cfg_file_str.split_once("[package.metadata.leptos-i18n]")
-        else {
+        const HEADER: &str = "[package.metadata.leptos-i18n]";
+
+        // the table header starts its line: the same text in a comment or inside a string is not the configuration.
+        let header_pos = cfg_file_str
+            .match_indices(HEADER)
+            .map(|(i, _)| i)
+            .find(|i| {
+                let line_start = cfg_file_str[..*i].rsplit('\n').next().unwrap_or_default();
+                line_start.trim().is_empty()
+            });
+
+        let Some(header_pos) = header_pos else {
             return Err(Error::ConfigNotPresent.into());
         };
+
+        let before = &cfg_file_str[..header_pos];
+        let i18n_cfg = &cfg_file_str[header_pos + HEADER.len()..];
 
         // this is to have the correct line number in the reported error.
         let cfg_file_whitespaced = before
